@@ -48,6 +48,11 @@ def programs(env, tier):
     anc2 = ("ANC2", env.R[1])
     out.append((1, [(a1[9], 0), (anc2, 0), (a1[4], 0)]))
     out.append((2, [(anc2, 1), (a1[0], 0), (("CNOT", 0), 0), (anc, 0)]))
+    # heralds placed directly on the base circuit, at or below qubit modes (not through an added sub-circuit)
+    for w in ("DH0", "DHph", "DHmid"):
+        out.append((1, [(a1[0], 0), (a1[4], 0), ((w,), 0)]))
+        out.append((2, [(a1[0], 0), (a1[9], 1), (("CNOT",), 0), (a1[4], 0), (a1[7], 1), ((w,), 0)]))
+    out.append((2, [(a1[9], 0), (a1[0], 1), (("CZ_Heralded",), 0), (a1[10], 1), (("DH0",), 0), (("DHmid",), 0)]))
     # three qubits: GHZ-type and a CCZ state with complex phases
     out.append((3, [(a1[0], 0), (("CNOT_Heralded",), 0), (("CNOT",), 1), (a1[4], 2)]))
     out.append((3, [(a1[0], 0), (a1[0], 1), (a1[0], 2), (("CCZ",), 0), (a1[6], 0), (a1[9], 1), (a1[7], 2)]))
@@ -126,6 +131,14 @@ def run_tomography(n, prog, vin, env, acc, order=None):
                 if wf.shape == uf.shape and w.heralds == h and np.allclose(wf, uf, atol=1e-10):
                     hit = i
                     break
+            if hit is None:
+                # same heralded transformation with the ancillas laid out differently is still "base + basis change"
+                from ..ref_circuit import compare_scatter, impl_scatter
+                sc = impl_scatter(c)
+                for i, (setting, w) in enumerate(unmatched):
+                    if compare_scatter(sc, impl_scatter(w), 1e-9)[0] == "ok":
+                        hit = i
+                        break
             if hit is None:
                 acc.violation("measurement_circuit_not_base_plus_basis_change", case, None)
                 break
